@@ -198,10 +198,7 @@ def main(argv):
     repo_root = os.environ.get("VERIF_REPO", "/repo")
     quals = argv[1:]
     if not quals:
-        repo = Repo(repo_root)
-        chk = Check(pid, repo)
-        importlib.import_module(f"sa.rules.{pid.lower()}").run(chk)
-        quals = sorted(chk.analysed_funcs)
+        quals = list(importlib.import_module(f"sa.rules.{pid.lower()}").ANCHORS)
     summary, res = run(pid, repo_root, quals)
     for q, d, v, det in res:
         if v != "violation":
